@@ -122,6 +122,16 @@ def b_snapshot(ctx):
         if len(apps) == 1 and len(lp.body) == 1 and re.sub(r"\s", "", src(apps[0].value.args[0])) == "self._req_queue[%s]" % k:
             okl = True
             bv = src(apps[0].value.func.value)
+    if ok and not okl:
+        # comprehension form: batch = [self._req_queue[k] for k in ids]
+        for n in region:
+            a = n.ast if n.kind == "stmt" else None
+            if isinstance(a, ast.Assign) and isinstance(a.value, ast.ListComp) and len(a.value.generators) == 1 and isinstance(a.targets[0], ast.Name):
+                g = a.value.generators[0]
+                if src(g.iter) == idv and not g.ifs and isinstance(g.target, ast.Name) and \
+                        re.sub(r"\s", "", src(a.value.elt)) == "self._req_queue[%s]" % g.target.id:
+                    okl = True
+                    bv = a.targets[0].id
     ctx.check("C19.b.pairing", BASIC, unit, "ids/texts snapshot", ok and okl,
               "`%s` and `%s` are produced by one iteration over the same key snapshot: position i of the batch is the text of request id %s[i]" % (bv, idv, idv), line=E.line)
     # after the region: the only await before set() is the model call; results stored with the same index
@@ -211,16 +221,25 @@ def c_cache(ctx):
         and len(udef[-1].value.generators[0].ifs) == 1 and "not in" in src(udef[-1].value.generators[0].ifs[0])
     ctx.check("C19.c.cache", CACHE, unit, "uncached selection", oku, "the uncached texts are exactly the input texts missing from the cache lookup, in input order", line=w.lineno)
     # results in input order
-    rets = [r for r in ast.walk(w) if isinstance(r, ast.Return) and isinstance(r.value, ast.Name)]
+    # the dict the cache lookup of the whole input is bound to
+    dnames = [a.targets[0].id for a in ast.walk(w) if isinstance(a, ast.Assign) and isinstance(a.targets[0], ast.Name) and isinstance(a.value, ast.Call)
+              and isinstance(a.value.func, ast.Attribute) and a.value.func.attr == "get" and [src(x) for x in a.value.args] == [texts]]
+    dn = dnames[-1] if dnames else "cached_texts"
+    rets = [r for r in ast.walk(w) if isinstance(r, ast.Return) and isinstance(r.value, (ast.Name, ast.ListComp))]
     okr = False
     if rets:
-        rv = rets[-1].value.id
-        rdef = [a for a in ast.walk(w) if isinstance(a, ast.Assign) and isinstance(a.targets[0], ast.Name) and a.targets[0].id == rv and isinstance(a.value, ast.ListComp)]
-        if rdef:
-            lc = rdef[-1].value
+        lc = None
+        if isinstance(rets[-1].value, ast.ListComp):
+            lc = rets[-1].value
+        else:
+            rv = rets[-1].value.id
+            rdef = [a for a in ast.walk(w) if isinstance(a, ast.Assign) and isinstance(a.targets[0], ast.Name) and a.targets[0].id == rv and isinstance(a.value, ast.ListComp)]
+            if rdef:
+                lc = rdef[-1].value
+        if lc is not None:
             g = lc.generators[0]
             okr = src(g.iter) == texts and not g.ifs and isinstance(g.target, ast.Name) and \
-                re.sub(r"\s", "", src(lc.elt)) in ("cached_texts.get(%s)" % g.target.id, "cached_texts[%s]" % g.target.id)
+                re.sub(r"\s", "", src(lc.elt)) in ("%s.get(%s)" % (dn, g.target.id), "%s[%s]" % (dn, g.target.id))
     ctx.check("C19.c.cache", CACHE, unit, "results in input order", okr, "the returned list is built by iterating over the INPUT texts in order and looking each one up by its own text", line=w.lineno)
     # EmbeddingsCache get/set key derivation agreement
     cls = find_class(t, "EmbeddingsCache")
